@@ -445,6 +445,85 @@ func (d *diff) checkClass(c int) {
 		return
 	}
 	r.TieOK()
+	// pointer layer: every link field of every node / page header reachable through pointers, against
+	// the model's heap (Model/Alloc.lean `Heap`, about which Props.C20.rep_inv is proved)
+	gotp := d.realPtrDump(c)
+	wantp := o.MustAsk(fmt.Sprintf("ptr %d", c))
+	if gotp != wantp {
+		d.tie("pointer-layer", fmt.Sprintf("class %d link fields differ:\n real  %s\n model %s", c, clipDiff(gotp, wantp), clipDiff(wantp, gotp)))
+		return
+	}
+	r.TieOK()
+}
+
+// clipDiff shows s around the first position where it differs from t.
+func clipDiff(s, t string) string {
+	i := 0
+	for i < len(s) && i < len(t) && s[i] == t[i] {
+		i++
+	}
+	lo := i - 200
+	if lo < 0 {
+		lo = 0
+	}
+	hi := i + 300
+	if hi > len(s) {
+		hi = len(s)
+	}
+	return fmt.Sprintf("[@%d] …%s…", i, s[lo:hi])
+}
+
+// realPtrDump renders VerifLinks (raw prev/next/prevInPage/nextInPage, header prev/next/freeList,
+// lists/firstPage/lastPage) with addresses canonicalised to page#.slot#, in the oracle's `ptr` format.
+func (d *diff) realPtrDump(c int) string {
+	lists, first, last, global, pages, ok := d.a.VerifLinks(c, 1<<22)
+	if !ok {
+		return "chain longer than 2^22 or leaving its page"
+	}
+	pid := func(base uintptr) string {
+		if base == 0 {
+			return "0"
+		}
+		if id, ok := d.pageID[base]; ok {
+			return strconv.Itoa(id)
+		}
+		return fmt.Sprintf("?%#x", base)
+	}
+	slot := func(p uintptr) string {
+		if p == 0 {
+			return "0"
+		}
+		base := memory.VerifPageBase(p)
+		return pid(base) + "." + strconv.Itoa((int(p-base)-hdrSize)/int(slots[c]))
+	}
+	var sb strings.Builder
+	fmt.Fprintf(&sb, "ok L=%s F=%s Z=%s g=", slot(lists), pid(first), pid(last))
+	if len(global) == 0 {
+		sb.WriteString("-")
+	}
+	for i, n := range global {
+		if i > 0 {
+			sb.WriteByte(',')
+		}
+		fmt.Fprintf(&sb, "%s:%s:%s", slot(n.Addr), slot(n.Prev), slot(n.Next))
+	}
+	sb.WriteString(" pl=")
+	if len(pages) == 0 {
+		sb.WriteString("-")
+	}
+	for i, h := range pages {
+		if i > 0 {
+			sb.WriteByte('|')
+		}
+		fmt.Fprintf(&sb, "%s:%s:%s:%s;", pid(h.Base), pid(h.Prev), pid(h.Next), slot(h.FreeList))
+		for j, n := range h.Nodes {
+			if j > 0 {
+				sb.WriteByte(',')
+			}
+			fmt.Fprintf(&sb, "%s:%s:%s", slot(n.Addr), slot(n.PrevInPage), slot(n.NextInPage))
+		}
+	}
+	return sb.String()
 }
 
 func clip(s string) string {
@@ -1351,6 +1430,10 @@ func supervise() {
 
 func main() {
 	r = vlib.NewRun("C20")
+	if os.Getenv("C20_RACE_CHILD") != "" {
+		raceChild() // race.go: this binary was built with -race and runs the concurrent stream only
+		return
+	}
 	if os.Getenv("C20_CHILD") == "" {
 		supervise()
 		return
@@ -1477,6 +1560,11 @@ func main() {
 			hint := len(slots) - 1 - g.Intn(10)
 			runConcurrent(fmt.Sprintf("conc-w%d-%d", w, k), g, w, 4, r.N(400, 2500), bs, hint)
 		}
+	}
+
+	// 6. the concurrent stream once more under the race detector (thorough only; race.go)
+	if r.Thorough() && (only == "" || only == "race") {
+		runRaceStream(g)
 	}
 
 	r.Extra["size_classes"] = len(slots)
